@@ -51,6 +51,8 @@ def specs_for(rng, thorough):
     out.append(dict(family="billing", profile="billing", meter_seed=rng.randrange(1 << 20), kind=rng.choice(kinds[:3])))
     out.append(dict(family="hourly", meter_seed=rng.randrange(1 << 10), seed=0))
     out.append(dict(family="hourly", meter_seed=rng.randrange(1 << 10), seed=rng.choice([1, 42, 2 ** 31])))
+    # the non-default iterative path (adaptive sample weights): several ElasticNet solves per fit
+    out.append(dict(family="hourly", meter_seed=rng.randrange(1 << 10), seed=3, adaptive=True))
     if thorough:
         for _ in range(6):
             out.append(dict(family="daily", profile=rng.choice(["current", "legacy"]), meter_seed=rng.randrange(1 << 20), kind=rng.choice(kinds)))
@@ -107,6 +109,8 @@ def run(ctx):
                          meter_seed=spec["meter_seed"] + 17, kind="outliers" if spec.get("kind") == "outliers" else "heating")
             c03_worker.fit_spec(dict(other, np_seed=5))
             runs["in_process_after_other_fit"] = c03_worker.fit_spec(dict(spec, np_seed=2))
+            # (2b) the SAME model object fitted and used for another meter first (a portfolio loop re-using one object)
+            runs["in_process_reused_model_object"] = c03_worker.fit_spec(dict(spec, np_seed=6, reuse_object=True))
         except Exception as e:  # noqa
             res["oracle_failures"].append(dict(case=spec, clause="fit_runs", detail=dict(error=f"{type(e).__name__}: {e}"[:300])))
             continue
@@ -133,7 +137,7 @@ def run(ctx):
     res["distinct_nontrivial"] = len(sigs)
     res["rule"] = ("settings objects with seed in {None, 0, 1, 42, 2^31, random} built under four global RNG states; real fits of synthetic meters "
                    "(daily current / legacy, billing, hourly with seed 0 and another seed) repeated in-process with the global RNG perturbed, after an "
-                   "unrelated fit, in fresh processes with 1 and 4 BLAS/OMP/numba threads and a warm history, and (thorough) up to 14 concurrent "
+                   "unrelated fit, with one model object re-used after fitting and predicting another meter, in fresh processes with 1 and 4 BLAS/OMP/numba threads and a warm history, and (thorough) up to 14 concurrent "
                    "workers; distinct = (family/profile, number of runs compared)")
     return res
 
